@@ -56,7 +56,10 @@ class Packet(Frame):
         super().__init__(frame[4:])  # remove RSSI
 
         if dtm.tzinfo is not None:  # e.g. a log line stamped '...+00:00': all dtms are
-            dtm = dtm.astimezone().replace(tzinfo=None)  # naive (local), as is dt.now()
+            try:
+                dtm = dtm.astimezone().replace(tzinfo=None)  # naive (local), as dt.now()
+            except (OverflowError, OSError) as err:  # at either end of the calendar
+                raise ValueError(f"Invalid timestamp: {dtm} has no local time") from err
         self._dtm: dt = dtm
 
         self._rssi: str = frame[0:3]
